@@ -65,14 +65,24 @@ def effPart : Verb → Rq → Option Name
     | .val p => some p
     | _ => none
 
+/-- The traits the checked reservation carries: for `create` the request's; for `update` those of
+    the reservation as it will be stored (the request's, or the stored ones when the request has
+    no `traits` member). -/
+def effTraits (s : List Resv) (alloc cell : Name) : Verb → Rq → List Name
+  | .create, rq => (rq.toCReq none).traitList
+  | .update, rq => match findResv s (alloc, cell) with
+    | some old => (merge old rq).traits
+    | none => []
+
 /-- **C19 (API: accepted ⇔ fits; rejection is the input error).**
     For EVERY request the schema of its verb admits (`schemaOK`: any Unicode decimal digits, any
     admitted unit letter in either case, optional final newline, any traits/rank members), whose
     id has the form `<allocation>/<cell>`, on a non-null partition `p`, over well-formed stored
-    data, there are the parsed quantities `v ≥ 0` of the request such that
-      * if it fits: `create` stores exactly the new record (or reports that the id exists);
-        `update` stores exactly the merged record (or reports that the id does not exist);
-      * if it does not fit: the result is `InvalidInputError`;
+    data: an `update` of an id that is not stored reports that (before any check); otherwise
+    there are the parsed quantities `v ≥ 0` of the request such that
+      * if the reservation (for `update`: the stored one updated with the request) fits, it is
+        stored (`create` of an id that is already stored reports that instead);
+      * if it does not fit, the result is `InvalidInputError`;
     in particular no other exception kind occurs.
     Excluded inputs, each checked against the real code by the harness:
       (a) `partition: null` (schema-valid; the code then counts every reservation of the cell
@@ -88,22 +98,23 @@ theorem C19_error_kind (parts : List Part) (s : List Resv) (verb : Verb) (rid : 
     (alloc cell p : Name) (hs : schemaOK (required verb) rq = true)
     (hid : splitId rid = some (alloc, cell)) (hp : effPart verb rq = some p)
     (hl : rq.WithinLimits) (wf : WFCheck parts s cell p alloc) :
+    (verb = .update ∧ findResv s (alloc, cell) = none ∧
+        Reserve.apply parts s verb rid rq = .error .notFound) ∨
     ∃ v, Vec.zero ≤ v ∧
-      ((Fits parts s cell p alloc (rq.toCReq none).traitList v ∧
+      ((Fits parts s cell p alloc (effTraits s alloc cell verb rq) v ∧
           ((∃ s', Reserve.apply parts s verb rid rq = .ok s') ∨
            (verb = .create ∧ findResv s (alloc, cell) ≠ none ∧
-              Reserve.apply parts s verb rid rq = .error .alreadyExists) ∨
-           (verb = .update ∧ findResv s (alloc, cell) = none ∧
-              Reserve.apply parts s verb rid rq = .error .notFound))) ∨
-       (¬ Fits parts s cell p alloc (rq.toCReq none).traitList v ∧
+              Reserve.apply parts s verb rid rq = .error .alreadyExists))) ∨
+       (¬ Fits parts s cell p alloc (effTraits s alloc cell verb rq) v ∧
           ∃ r t, Reserve.apply parts s verb rid rq = .error (.invalidInput r t))) := by
   cases verb with
   | create =>
+    right
     obtain ⟨c, d, m, v, _, _, _, _, h0, hcase⟩ := create_spec parts s rid rq alloc cell p hs hid hp hl wf
     refine ⟨v, h0, ?_⟩
     rcases hcase with ⟨hfit, ⟨_, hres⟩ | ⟨hne, hres⟩⟩ | ⟨hnfit, r, t, hres⟩
     · exact Or.inl ⟨hfit, Or.inl ⟨_, hres⟩⟩
-    · exact Or.inl ⟨hfit, Or.inr (Or.inl ⟨rfl, hne, hres⟩)⟩
+    · exact Or.inl ⟨hfit, Or.inr ⟨rfl, hne, hres⟩⟩
     · exact Or.inr ⟨hnfit, r, t, hres⟩
   | update =>
     have hp' : rq.part = .val p := by
@@ -111,29 +122,30 @@ theorem C19_error_kind (parts : List Part) (s : List Resv) (verb : Verb) (rid : 
       split at hp
       · rename_i q hq; cases hp; exact hq
       · cases hp
-    obtain ⟨c, d, m, v, _, _, _, _, h0, hcase⟩ := update_spec parts s rid rq alloc cell p hs hid hp' hl wf
-    refine ⟨v, h0, ?_⟩
-    rcases hcase with ⟨hfit, ⟨old, _, hres⟩ | ⟨hnone, hres⟩⟩ | ⟨hnfit, r, t, hres⟩
-    · exact Or.inl ⟨hfit, Or.inl ⟨_, hres⟩⟩
-    · exact Or.inl ⟨hfit, Or.inr (Or.inr ⟨rfl, hnone, hres⟩)⟩
-    · exact Or.inr ⟨hnfit, r, t, hres⟩
+    rcases update_spec parts s rid rq alloc cell p hs hid hp' hl wf with
+      ⟨hnone, hres⟩ | ⟨old, c, d, m, v, hfind, _, _, _, _, h0, hcase⟩
+    · exact Or.inl ⟨rfl, hnone, hres⟩
+    · right
+      refine ⟨v, h0, ?_⟩
+      have het : effTraits s alloc cell .update rq = (merge old rq).traits := by
+        simp [effTraits, hfind]
+      rw [het]
+      rcases hcase with ⟨hfit, hres⟩ | ⟨hnfit, r, t, hres⟩
+      · exact Or.inl ⟨hfit, Or.inl ⟨_, hres⟩⟩
+      · exact Or.inr ⟨hnfit, r, t, hres⟩
 
-/-- **C19 (sequence) — partial: every update carries its `traits` member.**
+/-- **C19 (sequence).**
     Start from any state satisfying the invariant `Inv` (ids unique; stored quantities
     well-formed and non-negative; trait lists duplicate-free; EVERY (cell, partition) within its
     capacity and within each per-trait limit — e.g. the empty store, `inv_nil`).  Run ANY list of
     create/update requests (`runReqs`: a rejected request leaves the store unchanged), each with
     a non-null partition, quantities within the digit limit and a duplicate-free trait list
-    (`ReqOK`, decidable).  Then the invariant holds at the end (hence after every prefix): every
-    sum of accepted reservations is ≤ the partition capacity and ≤ every per-trait limit.
-
-    Missing for the full statement: `ReqOK .update` demands that an update lists its traits.  The
-    real `update` checks a request without `traits` against the overall capacity only and then
-    keeps the stored traits, so the property itself fails there
-    (`C19_sequence_update_without_traits_witness`; known finding, replayed on the real code). -/
-theorem C19_sequence_partial (parts : List Part) (hparts : PartsWF parts) (s : List Resv)
+    (`ReqOK`, decidable; an update may or may not carry `traits`).  Then the invariant holds at
+    the end (hence after every prefix): every sum of accepted reservations is ≤ the partition
+    capacity and ≤ every per-trait limit. -/
+theorem C19_sequence (parts : List Part) (hparts : PartsWF parts) (s : List Resv)
     (hi : Inv parts s) (reqs : List (Verb × List Char × Rq))
-    (hreq : ∀ q ∈ reqs, ReqOK q.1 q.2.2) :
+    (hreq : ∀ q ∈ reqs, ReqOK q.2.2) :
     Inv parts (runReqs parts s reqs) ∧
     (∀ cell p, used (runReqs parts s reqs) (inP cell p) ≤ (partitionGet parts (some p) cell).vec) ∧
     (∀ cell p, ∀ l ∈ (partitionGet parts (some p) cell).limits,
@@ -141,7 +153,7 @@ theorem C19_sequence_partial (parts : List Part) (hparts : PartsWF parts) (s : L
   have h := runReqs_preserves hparts reqs s hi hreq
   ⟨h, h.cap, h.lim⟩
 
-/-! ### Witnesses for the two findings (kernel-evaluated on the model) -/
+/-! ### Concrete cases (kernel-evaluated on the model) -/
 
 def wLimitA : Limit := ⟨"a".toList, "20%".toList, "100G".toList, "100G".toList⟩
 def wParts : List Part :=
@@ -156,24 +168,29 @@ def wReqs : List (Verb × List Char × Rq) :=
   [(.create, "t/r1/c1".toList, wRq "10%" (.val [some "a".toList])),
    (.update, "t/r1/c1".toList, wRq "90%" .absent)]
 
-/-- **Finding (sequence).**  Partition p1: cpu 100%, limit for trait `a`: cpu 20%.  `create` of a
-    10% reservation with trait `a`, then `update` to 90% *without* a `traits` member: both are
-    accepted by the model of the code, and the reservations carrying `a` then use 90% > 20%.
-    Every side condition of `C19_sequence_partial` except "update carries traits" holds. -/
-theorem C19_sequence_update_without_traits_witness :
-    PartsWF wParts ∧ Inv wParts [] ∧
-    (∀ q ∈ wReqs, q.2.2.part ≠ .null ∧ q.2.2.WithinLimits ∧ (q.2.2.toCReq none).traitList.Nodup) ∧
-    ¬ (used (runReqs wParts [] wReqs) (inPT "c1".toList "p1".toList "a".toList) ≤ wLimitA.vec) := by
-  have hp : PartsWF wParts := by
-    intro q hq
-    simp only [wParts, List.mem_singleton] at hq
-    subst hq
-    refine ⟨⟨⟨100, 107374182400, 107374182400⟩, by decide +kernel, by decide⟩, ?_, by decide⟩
-    intro l hl
-    simp only [List.mem_singleton] at hl
-    subst hl
-    exact ⟨⟨20, 107374182400, 107374182400⟩, by decide +kernel, by decide⟩
-  exact ⟨hp, inv_nil hp, by decide +kernel, by decide +kernel⟩
+theorem wParts_wf : PartsWF wParts := by
+  intro q hq
+  simp only [wParts, List.mem_singleton] at hq
+  subst hq
+  refine ⟨⟨⟨100, 107374182400, 107374182400⟩, by decide +kernel, by decide⟩, ?_, by decide⟩
+  intro l hl
+  simp only [List.mem_singleton] at hl
+  subst hl
+  exact ⟨⟨20, 107374182400, 107374182400⟩, by decide +kernel, by decide⟩
+
+/-- **Regression case of the repaired defect** (corpus/reserve/C19-update-without-traits.json).
+    Partition p1: cpu 100%, limit for trait `a`: cpu 20%.  `create` of a 10% reservation with trait
+    `a` is accepted; `update` to 90% *without* a `traits` member is now checked as the reservation
+    that would be stored (still carrying `a`) and is rejected with the input error naming the
+    trait; the store is unchanged and trait `a` stays within its limit. -/
+theorem C19_update_without_traits_rejected :
+    PartsWF wParts ∧ (∀ q ∈ wReqs, ReqOK q.2.2) ∧
+    (∃ s1, create wParts [] "t/r1/c1".toList (wRq "10%" (.val [some "a".toList])) = .ok s1 ∧
+      update wParts s1 "t/r1/c1".toList (wRq "90%" .absent) =
+        .error (.invalidInput .cpu (some "a".toList)) ∧
+      runReqs wParts [] wReqs = s1) ∧
+    used (runReqs wParts [] wReqs) (inPT "c1".toList "p1".toList "a".toList) ≤ wLimitA.vec := by
+  refine ⟨wParts_wf, by decide +kernel, ⟨_, rfl, ?_, ?_⟩, ?_⟩ <;> decide +kernel
 
 /-- **Finding (error kind).**  A cpu string of `intMaxStrDigits + 1` digits followed by `%` is
     admitted by the schema, and `create` fails with ValueError (`.py .valueError`), not with the
@@ -225,18 +242,20 @@ example :
     checkCapacity wParts xStore "c1".toList "t/r0".toList (xReq "6%") = .ok () := by
   refine ⟨⟨_, _, _, rfl, rfl, rfl, ?_, ?_, ?_⟩, ?_, ?_, ?_⟩ <;> decide +kernel
 
-/-- `C19_sequence_partial` is not vacuous: a stream satisfying `ReqOK` with an accepted create,
-    a rejected create (trait limit), an accepted update and a rejected update. -/
+/-- `C19_sequence` is not vacuous: a stream satisfying `ReqOK` with an accepted create, a rejected
+    create (trait limit), an accepted update, a rejected update, an update without `traits` that is
+    accepted (5% ≤ 20%) and a create without traits. -/
 def xReqs : List (Verb × List Char × Rq) :=
   [(.create, "t/r1/c1".toList, wRq "10%" (.val [some "a".toList])),
    (.create, "t/r2/c1".toList, wRq "11%" (.val [some "a".toList])),
    (.update, "t/r1/c1".toList, wRq "20%" (.val [some "a".toList])),
    (.update, "t/r1/c1".toList, wRq "90%" (.val [some "a".toList])),
+   (.update, "t/r1/c1".toList, wRq "5%" .absent),
    (.create, "t/r3/c1".toList, wRq "80%" .absent)]
 
-example : (∀ q ∈ xReqs, ReqOK q.1 q.2.2) ∧
+example : (∀ q ∈ xReqs, ReqOK q.2.2) ∧
     (runReqs wParts [] xReqs).map (fun r => (r.alloc, r.cpu, r.traits)) =
-      [("t/r1".toList, "20%".toList, ["a".toList]), ("t/r3".toList, "80%".toList, [])] := by
+      [("t/r1".toList, "5%".toList, ["a".toList]), ("t/r3".toList, "80%".toList, [])] := by
   constructor <;> decide +kernel
 
 /-- `C19_error_kind` is not vacuous: its hypotheses hold for a concrete schema-valid update. -/
